@@ -27,10 +27,10 @@ PROPS = {
     'C05': dict(units=['state_analyzer'],
                 claim="solve_conflict decides reduce iff rule precedence > term precedence or equal with the rule left-associative (from the statement); the rule's last term is its right-most terminal; rule precedence = explicit [n] if non-zero else the last term's else 0; rule associativity = the last term's",
                 assumptions=['conflict detection inside transitions() (which entry gets the verdict, has_sr_conflict) is not under contract', L_KNUTH, GLUE]),
-    'C07': dict(units=['dfa', 'driver'], static=[SF.buffers_static],
+    'C07': dict(units=['dfa', 'driver', 'buffers'], static=[SF.buffers_static],
                 claim='absence of undefined behaviour on the failure paths the property anchors (lexical error in get_current_term, non-matching regex::expr::match): the exact condition under which a constant evaluator must accept the evaluation; the parse path is one lowered text for all buffer kinds (R7)',
                 assumptions=["that g++'s and clang's constant evaluators and the compiled code compute the same function of a UB-free evaluation is the language standard (trusted)",
-                             'buffer adaptors (cstring_buffer::iterator operators, the three get_view) are pinned as one-line pattern facts, not verified as functions', LEXER]),
+                             'buffer adaptors: cstring_buffer::iterator operators, begin/end and get_view of the three buffers are under contract (unit buffers) with std::string / std::string_view members read as (pointer, length) pairs and their iterators as pointers (standard-library meaning, trusted); the cstring_buffer constructor (pack-expanded copy_array) is a pattern fact only', LEXER]),
     'C11': dict(units=['diag', 'state_analyzer', 'state_analyzer@small'],
                 claim='write_state_diag_str prints for every term column exactly one action line of the kind the table entry has, with the rule number / target state of that entry (including the losing reduction of a resolved S/R conflict); the RULES list numbers rules as the action lines do; all name/rule/symbol indices in bounds; add_situation files an item under the symbol after its dot',
                 assumptions=['that the item sets and conflict flags in the table are the true LR(1) ones is C01 (transitions/closure not under contract)', 'text formatting is lowered to events (R10)', 'the DFA dump is not verified']),
@@ -41,7 +41,7 @@ PROPS = {
     'C02': dict(units=['driver', 'stdex', 'dfa'],
                 claim='driver-level half of bottom-up evaluation: which rule functor is invoked, with which stack slice, in which order, once; shift applies the term functor of the shifted term to the pending lexeme; success returns the bottom value',
                 assumptions=[L_PATH, L_IDS, TABLE_WF, R13, 'that the popped slice is the handle of the unique derivation is the LR(1) theorem (C01), not mechanised']),
-    'C04': dict(units=['driver', 'utils', 'dfa'], static=[SF.buffers_static],
+    'C04': dict(units=['driver', 'utils', 'dfa', 'buffers'], static=[SF.buffers_static],
                 claim='whitespace skipping is exactly the documented sets; the lexer is asked once at the skipped position with the whole rest of the buffer; the lexeme is exactly [current_it, current_it+len); a failure result yields one Unexpected character report',
                 assumptions=[LEXER, 'longest match/first-listed priority of the automaton itself: unit dfa (dfa_match/run); the union automaton built by merging is not verified (finding D10)']),
     'C06': dict(units=['driver', 'stdex', 'utils', 'regex_lexer', 'dfa'], all=['driver', 'stdex'],
